@@ -17,6 +17,14 @@ SUB = "1>0,2>0"
 ALPHA = ["ok", 0, 1, 2, 9]
 
 
+FALSY = ["value", None, 0, b"", False, {}]
+
+
+def Val(n, kind):
+    """the object a successful scripted call returns; the monitor compares by identity, the model comparison by position"""
+    return ("val", n) if kind == "value" else kind if kind is None or kind is False else kind
+
+
 class Inner:
     def __init__(self, script, log):
         self.script, self.log, self.i = script, log, 0
@@ -50,7 +58,8 @@ def run_real(retrying, attempts, rf, dnr, spelling, seq, delay, method="op", inn
     log = []
     script = []
     for n, o in enumerate(seq):
-        script.append(("ok", ("val", n)) if o == "ok" else ("exc", CLS[o](n)))
+        # what a successful call returns varies: a value, and the results a cache legitimately gives for a miss / an empty item (None, 0, b"", False, {})
+        script.append(("ok", Val(n, FALSY[(n + len(seq) + attempts) % len(FALSY)])) if o == "ok" else ("exc", CLS[o](n)))
     inner = inner_cls(script, log)
     retrying.sleep = lambda d: log.append(("sleep", d))
     conv = {"tuple": tuple, "list": list, "set": set}[spelling]
@@ -117,7 +126,8 @@ def canon_real(outcome, res, log):
     inv = sum(1 for e in log if e[0] == "call")
     sl = sum(1 for e in log if e[0] == "sleep")
     if outcome == "value":
-        r = f"value:{res[1]}" if isinstance(res, tuple) and len(res) == 2 else f"value-other:{res!r}"
+        # successful results are told apart by position: the (inv-1)-th scripted outcome is the one that must have been returned (identity is the monitor's job)
+        r = f"value:{inv - 1}"
     else:
         r = f"raised:{IDS[type(res)]}:{res.args[0]}" if type(res) in IDS else f"raised-other:{type(res).__name__}"
     return f"ok res={r} inv={inv} sleeps={sl}"
